@@ -597,6 +597,39 @@ def run(prog, rep, tier):
         if not openers:
             rep.violation(R53, inst + "|used", "%s: the selected path does not reach any open call" % path)
 
+    # ------------------------------------------------------------ R5.8 sibling decoders size the block being read by the read cursor
+    # Each streaming decoder (gz, bz2, lz4, xz) reads forward from its cursor up to the requested
+    # block; the length of the block it is filling is that of the block *at the cursor*.  Using the
+    # requested block offset instead gives the same length while blocks are read one after another and
+    # a wrong (short) one when a read jumps ahead to the last block - the year-less backward pass does.
+    R58 = rep.rule("R5.8", "every decoder asks for the size of the block at its read cursor (sibling agreement)")
+    import flow as _flow58
+    kinds58 = {}
+    for nm_ in ("Gz", "Bz2", "Lz4", "Xz"):
+        db = prog.body("s4lib::readers::blockreader::BlockReader::read_block_File" + nm_, required=False)
+        if db is None:
+            continue
+        for c in db.live_calls():
+            if c.d.endswith("::blocksz_at_blockoffset") and len(c.args) >= 2:
+                tl = _flow58.named_target(db, c.args[1])
+                if tl is None:
+                    kind = "?"
+                elif 1 <= tl <= db.argc:
+                    kind = "parameter"
+                else:
+                    ds_ = db.defs.get(tl, [])
+                    stepping = any(d_[1] != "call" and d_[2][0] == "bin" and d_[2][1].startswith("Add") and op_local(d_[2][2]) == tl for d_ in ds_)
+                    kind = "cursor" if stepping else "variable"
+                kinds58.setdefault(nm_, []).append((kind, db.local_name(tl) if tl is not None else None, c.line))
+    for nm_, ks in sorted(kinds58.items()):
+        rep.examined(R58, "read_block_File%s|block-size" % nm_, sample={"decoder": nm_, "argument_of_blocksz_at_blockoffset": ks})
+        for kind, vn, ln in ks:
+            if kind != "cursor":
+                rep.violation(R58, "read_block_File%s|block-size" % nm_, "read_block_File%s sizes the block it is filling with blocksz_at_blockoffset(%s) (line %d), which is the %s, not the read cursor that its sibling decoders use; "
+                              "when a read jumps ahead to a short last block every skipped block is read with the short length and the file is abandoned (output depends on --blocksz)" % (nm_, vn, ln, kind))
+    if len(kinds58) < 3:
+        raise CheckerError("R5.8: blocksz_at_blockoffset call found in only %d decoders" % len(kinds58))
+
     return rep.finish(
         "Static necessary-condition check: every decoder read() call site of the library honours short reads (count bounds the consumed slice, "
         "or a fill loop, or the buffer is not consumed); BlockReader::read_block dispatches Text and FixedStruct to the same, distinct reader per "
